@@ -126,3 +126,15 @@ int vsim_encode_hello_request(ssl_t *ssl)
     (void) ssl; return -1;
 #endif
 }
+
+/* Byzantine TLS 1.3 server (the only writer among these helpers, used on the ROGUE node only): a server that answers every ClientHello
+ * with "pre_shared_key selected" although no PSK was offered or agreed - it then sends ServerHello{key_share, pre_shared_key(0)},
+ * EncryptedExtensions, Finished keyed from the all-zero PSK and never a Certificate.  Stands for a hand-written malicious server. */
+void vsim_poke_tls13_using_psk(ssl_t *ssl)
+{
+#ifdef USE_TLS_1_3
+    if (ssl) { ssl->sec.tls13UsingPsk = PS_TRUE; }
+#else
+    (void) ssl;
+#endif
+}
